@@ -1,1 +1,562 @@
-fn main() {}
+//! C11 — concurrent cache and storage use is linearizable and keeps its books.
+//!
+//! Engine `sched`: every case is (system, program, schedule). The program's
+//! tasks run as OS threads under the baton scheduler of `sched.rs`; the code
+//! under test calls `sched_point(site)` (verif-hooks) between two accesses to
+//! shared state and the *schedule* decides who runs next. The oracle is in
+//! `judge.rs` (linearizability w.r.t. the sequential map model, no torn value,
+//! no error without a race, books after the sweep, no panic).
+//!
+//! Sections
+//!   dfs-memory / dfs-disk / dfs-container   exhaustive: every program of the
+//!       stated finite family × every schedule with ≤ 3 pre-emptions (stateless
+//!       depth-first search over the choice points the run itself reveals);
+//!   random-memory / random-disk / random-container   proptest: 2–3 tasks ×
+//!       1–3 ops over up to 3 keys, optional setup, random schedules;
+//!   evict-memory   proptest: tiny capacities so that evictions run concurrently
+//!       (judged with the "may evict" model + books + no panic).
+
+mod judge;
+mod lin;
+mod sched;
+mod sys;
+
+use judge::{Analysis, analyze, keyed_failures};
+use proptest::prelude::*;
+use std::collections::{BTreeMap, HashMap, HashSet};
+use std::sync::Mutex;
+use std::sync::atomic::{AtomicBool, AtomicUsize, Ordering};
+use sys::{Case, Cfg, Op, Pol, Sys, run_case};
+use vh_engine::{Check, Known, Section, Verdict};
+
+const BOUND: usize = 3;
+
+static INFRA: Mutex<Vec<String>> = Mutex::new(Vec::new());
+
+fn infra(msg: String) {
+    let mut g = INFRA.lock().unwrap_or_else(|e| e.into_inner());
+    if g.len() < 20 {
+        g.push(msg);
+    }
+}
+
+fn drain_infra(ck: &mut Check) {
+    let msgs: Vec<String> = std::mem::take(&mut *INFRA.lock().unwrap_or_else(|e| e.into_inner()));
+    for m in msgs {
+        ck.infra(m);
+    }
+}
+
+fn intern(s: String) -> &'static str {
+    static TABLE: Mutex<Option<HashMap<String, &'static str>>> = Mutex::new(None);
+    let mut g = TABLE.lock().unwrap_or_else(|e| e.into_inner());
+    let t = g.get_or_insert_with(HashMap::new);
+    if let Some(v) = t.get(&s) {
+        return v;
+    }
+    let leaked: &'static str = Box::leak(s.clone().into_boxed_str());
+    t.insert(s, leaked);
+    leaked
+}
+
+fn classes_of(an: &Analysis, nontrivial: bool) -> Vec<&'static str> {
+    let mut c: Vec<&'static str> = Vec::new();
+    c.push(match an.preemptions {
+        0 => "preemptions=0",
+        1 => "preemptions=1",
+        2 => "preemptions=2",
+        3 => "preemptions=3",
+        _ => "preemptions>3",
+    });
+    for s in &an.sites {
+        c.push(intern(format!("site:{s}")));
+    }
+    for s in &an.preempt_sites {
+        c.push(intern(format!("preempted-at:{s}")));
+    }
+    if nontrivial {
+        c.push("nontrivial");
+    }
+    if an.overlap_same_key {
+        c.push("same-key-ops-overlap");
+    }
+    if an.eviction {
+        c.push("eviction-occurred(may-evict model)");
+    }
+    if an.error_in_race {
+        c.push("error-returned-in-a-race(tolerated)");
+    }
+    if an.lin_skipped {
+        c.push("linearizability-skipped(clear failed)");
+    }
+    if an.get_hit {
+        c.push("get-hit");
+    }
+    c
+}
+
+/// Run and judge one case. Returns the verdict for the engine; failures carry
+/// their narrow key. Known-open keys are reported through `known_hits` so that
+/// a second, unknown failure of the same run is not hidden.
+fn check_case(case: &Case, known: &Known) -> Verdict {
+    let run = match run_case(case) {
+        Ok(r) => r,
+        Err(e) => {
+            infra(format!("{e} — case {}", serde_json::to_string(case).unwrap_or_default()));
+            return Verdict::pass().class("infrastructure-trouble");
+        }
+    };
+    let an = analyze(case, &run);
+    let nontrivial = an.preemptions >= 1 && an.overlap_same_key;
+    let mut v = Verdict::pass().nontrivial(nontrivial);
+    v.classes = classes_of(&an, nontrivial);
+    if an.failures.is_empty() {
+        return v;
+    }
+    match keyed_failures(case, &an) {
+        Err(e) => {
+            infra(format!("{e} — case {}", serde_json::to_string(case).unwrap_or_default()));
+            v.class("infrastructure-trouble")
+        }
+        Ok(keyed) => {
+            let mut first_unknown = None;
+            for k in keyed {
+                if known.is_open(&k.key) {
+                    if !v.known_hits.contains(&k.key) {
+                        v.known_hits.push(k.key);
+                    }
+                } else if first_unknown.is_none() {
+                    first_unknown = Some(k);
+                }
+            }
+            match first_unknown {
+                Some(k) => v.with_fail(k.key, k.msg),
+                None => v,
+            }
+        }
+    }
+}
+
+// ---------------------------------------------------------------------------
+// exhaustive section: programs × all schedules with ≤ BOUND pre-emptions
+// ---------------------------------------------------------------------------
+
+#[derive(Debug, Clone)]
+struct Program {
+    sys: Sys,
+    setup: Vec<Op>,
+    tasks: Vec<Vec<Op>>,
+}
+
+fn swap_keys(op: Op) -> Op {
+    match op.key() {
+        Some(0) => op.with_key(1),
+        Some(1) => op.with_key(0),
+        _ => op,
+    }
+}
+
+/// All 2 × 2 programs over `alphabet`, one representative per symmetry class
+/// (exchange of the two tasks; exchange of the two keys when the setup is empty).
+fn programs_2x2(sys: Sys, alphabet: &[Op], setups: &[Vec<Op>]) -> Vec<Program> {
+    let mut out = Vec::new();
+    for setup in setups {
+        for &a0 in alphabet {
+            for &a1 in alphabet {
+                for &b0 in alphabet {
+                    for &b1 in alphabet {
+                        let t = [[a0, a1], [b0, b1]];
+                        let canon = |t: [[Op; 2]; 2]| if t[0] <= t[1] { t } else { [t[1], t[0]] };
+                        if canon(t) != t {
+                            continue;
+                        }
+                        if setup.is_empty() {
+                            let sw = canon([[swap_keys(a0), swap_keys(a1)], [swap_keys(b0), swap_keys(b1)]]);
+                            if sw < t {
+                                continue;
+                            }
+                        }
+                        out.push(Program { sys, setup: setup.clone(), tasks: vec![t[0].to_vec(), t[1].to_vec()] });
+                    }
+                }
+            }
+        }
+    }
+    out
+}
+
+#[derive(Default)]
+struct DfsStats {
+    evaluations: u64,
+    nontrivial: HashSet<u64>,
+    classes: BTreeMap<String, u64>,
+    samples: Vec<serde_json::Value>,
+    /// key -> (pre-emptions, case, msg): the smallest failing case per key
+    failures: BTreeMap<String, (usize, Case, String)>,
+    known: BTreeMap<String, u64>,
+    max_schedules_per_program: u64,
+    programs: u64,
+}
+
+/// Depth-first search over the schedules of one program.
+fn dfs_program(p: &Program, known: &Known, st: &mut DfsStats, stop: &AtomicBool) {
+    // (explicit choices, pre-emptions among them)
+    let mut stack: Vec<(Vec<u8>, usize)> = vec![(Vec::new(), 0)];
+    let mut schedules = 0u64;
+    // failure keys are memoised per (category, pre-emption sites of the failing run): the
+    // reduction re-runs are only needed once per such signature within a program
+    let mut memo: HashMap<(String, Vec<&'static str>), (String, String, Case, usize)> = HashMap::new();
+    while let Some((prefix, pre)) = stack.pop() {
+        if stop.load(Ordering::Relaxed) {
+            return;
+        }
+        let case = Case { sys: p.sys, cfg: Cfg::roomy(), setup: p.setup.clone(), tasks: p.tasks.clone(), schedule: prefix.clone() };
+        let run = match run_case(&case) {
+            Ok(r) => r,
+            Err(e) => {
+                infra(format!("{e} — case {}", serde_json::to_string(&case).unwrap_or_default()));
+                stop.store(true, Ordering::Relaxed);
+                return;
+            }
+        };
+        schedules += 1;
+        // children: flip one later choice
+        for i in prefix.len()..run.choices.len() {
+            let ch = run.choices[i];
+            let npre = pre + usize::from(ch.preemptive);
+            if npre > BOUND {
+                continue;
+            }
+            for c in 1..ch.options {
+                let mut child: Vec<u8> = run.choices[..i].iter().map(|x| x.chosen).collect();
+                child.push(c);
+                stack.push((child, npre));
+            }
+        }
+        let an = analyze(&case, &run);
+        let nontrivial = an.preemptions >= 1 && an.overlap_same_key;
+        st.evaluations += 1;
+        for c in classes_of(&an, nontrivial) {
+            *st.classes.entry(c.to_string()).or_default() += 1;
+        }
+        if nontrivial {
+            let js = serde_json::to_value(&case).unwrap_or(serde_json::Value::Null);
+            if st.nontrivial.insert(vh_engine::util::fnv64(js.to_string().as_bytes())) && st.samples.len() < 2 {
+                st.samples.push(js);
+            }
+        }
+        if an.failures.is_empty() {
+            continue;
+        }
+        let mut cats: Vec<&str> = Vec::new();
+        for f in &an.failures {
+            if cats.contains(&f.category.as_str()) {
+                continue;
+            }
+            cats.push(&f.category);
+            let sig = (f.category.clone(), an.preempt_sites.clone());
+            let (key, msg, mcase, mpre) = match memo.get(&sig) {
+                Some(x) => x.clone(),
+                None => {
+                    let one = Analysis { failures: vec![f.clone()], ..Analysis::default() };
+                    match keyed_failures(&case, &one) {
+                        Ok(mut k) if !k.is_empty() => {
+                            let k = k.remove(0);
+                            let mpre = k.case.schedule.iter().filter(|x| **x != 0).count();
+                            let v = (k.key, k.msg, k.case, mpre);
+                            memo.insert(sig, v.clone());
+                            v
+                        }
+                        Ok(_) => continue,
+                        Err(e) => {
+                            infra(format!("{e} — case {}", serde_json::to_string(&case).unwrap_or_default()));
+                            continue;
+                        }
+                    }
+                }
+            };
+            if known.is_open(&key) {
+                *st.known.entry(key).or_default() += 1;
+            } else {
+                let better = st.failures.get(&key).is_none_or(|(bp, bc, _)| (mpre, mcase.schedule.len()) < (*bp, bc.schedule.len()));
+                if better {
+                    st.failures.insert(key, (mpre, mcase, msg));
+                }
+            }
+        }
+    }
+    st.programs += 1;
+    st.max_schedules_per_program = st.max_schedules_per_program.max(schedules);
+}
+
+fn run_dfs_section(ck: &mut Check, name: &'static str, scope: String, programs: Vec<Program>, shards: usize) {
+    if !ck.section_enabled(name) {
+        return;
+    }
+    let t0 = std::time::Instant::now();
+    let known = ck.known().clone();
+    // regression replays first
+    for (path, cj) in ck.stored_replays(name) {
+        let Ok(case) = serde_json::from_value::<Case>(cj) else { continue };
+        let v = check_case(&case, &known);
+        ck.record_external(name, 1, Vec::new(), v.classes.iter().map(|c| (c.to_string(), 1)), Vec::new(), None);
+        for k in &v.known_hits {
+            ck.count_known(name, k, 1);
+        }
+        if let Some(f) = v.fail {
+            eprintln!("regression replay {} fails: {} {}", path.display(), f.key, f.msg);
+            ck.report_external(name, &case, &f.key, &f.msg);
+        }
+    }
+    let next = AtomicUsize::new(0);
+    let stop = AtomicBool::new(false);
+    let total = Mutex::new(DfsStats::default());
+    std::thread::scope(|sc| {
+        for _ in 0..shards.max(1) {
+            sc.spawn(|| {
+                vh_engine::util::install_panic_capture();
+                let mut st = DfsStats::default();
+                loop {
+                    let i = next.fetch_add(1, Ordering::Relaxed);
+                    if i >= programs.len() || stop.load(Ordering::Relaxed) {
+                        break;
+                    }
+                    dfs_program(&programs[i], &known, &mut st, &stop);
+                }
+                let mut g = total.lock().unwrap_or_else(|e| e.into_inner());
+                g.evaluations += st.evaluations;
+                g.programs += st.programs;
+                g.max_schedules_per_program = g.max_schedules_per_program.max(st.max_schedules_per_program);
+                g.nontrivial.extend(st.nontrivial);
+                for (k, v) in st.classes {
+                    *g.classes.entry(k).or_default() += v;
+                }
+                for (k, v) in st.known {
+                    *g.known.entry(k).or_default() += v;
+                }
+                for s in st.samples {
+                    if g.samples.len() < 3 {
+                        g.samples.push(s);
+                    }
+                }
+                for (k, v) in st.failures {
+                    let better = g.failures.get(&k).is_none_or(|(bp, bc, _)| (v.0, v.1.schedule.len()) < (*bp, bc.schedule.len()));
+                    if better {
+                        g.failures.insert(k, v);
+                    }
+                }
+            });
+        }
+    });
+    let st = total.into_inner().unwrap_or_else(|e| e.into_inner());
+    let complete = !stop.load(Ordering::Relaxed) && st.programs as usize == programs.len();
+    let mut classes: Vec<(String, u64)> = st.classes.into_iter().collect();
+    classes.push(("programs".into(), st.programs));
+    classes.push(("max-schedules-of-one-program".into(), st.max_schedules_per_program));
+    ck.record_external(name, st.evaluations, st.nontrivial, classes, st.samples, if complete { Some(scope) } else { None });
+    for (k, n) in st.known {
+        ck.count_known(name, &k, n);
+    }
+    for (key, (_, case, msg)) in st.failures {
+        ck.report_external(name, &case, &key, &msg);
+    }
+    drain_infra(ck);
+    eprintln!("[{name}] {} programs, {} schedules, {:.1} s", st.programs, st.evaluations, t0.elapsed().as_secs_f64());
+}
+
+// ---------------------------------------------------------------------------
+// random programs and schedules
+// ---------------------------------------------------------------------------
+
+fn op_strategy(sys: Sys, nkeys: u8) -> BoxedStrategy<Op> {
+    // keys skewed towards key 0 so that tasks meet on one key
+    let key = prop_oneof![5 => Just(0u8), 3 => Just(1u8), 2 => Just(2u8), 1 => Just(3u8)].prop_map(move |k| k.min(nkeys - 1));
+    match sys {
+        Sys::Container => (prop_oneof![3 => Just(0u8), 2 => Just(1u8), 3 => Just(2u8), 2 => Just(4u8)], key)
+            .prop_map(|(o, k)| match o {
+                0 => Op::Get { k },
+                1 => Op::Has { k },
+                2 => Op::Put { k },
+                _ => Op::Remove { k },
+            })
+            .boxed(),
+        _ => (prop_oneof![3 => Just(0u8), 2 => Just(1u8), 3 => Just(2u8), 2 => Just(3u8), 2 => Just(4u8), 1 => Just(5u8)], key)
+            .prop_map(|(o, k)| match o {
+                0 => Op::Get { k },
+                1 => Op::Has { k },
+                2 => Op::Put { k },
+                3 => Op::PutZero { k },
+                4 => Op::Remove { k },
+                _ => Op::Clear,
+            })
+            .boxed(),
+    }
+}
+
+fn schedule_strategy(max_len: usize) -> BoxedStrategy<Vec<u8>> {
+    // 0 = the running task continues; the density of pre-emptions varies per schedule
+    prop_oneof![
+        2 => proptest::collection::vec(prop_oneof![6 => Just(0u8), 3 => Just(1u8), 1 => Just(2u8)], 0..=max_len),
+        1 => proptest::collection::vec(prop_oneof![2 => Just(0u8), 3 => Just(1u8), 1 => Just(2u8)], 0..=max_len),
+        1 => proptest::collection::vec(prop_oneof![12 => Just(0u8), 2 => Just(1u8), 1 => Just(2u8)], 0..=max_len * 2),
+    ]
+    .boxed()
+}
+
+fn random_case(sys: Sys) -> BoxedStrategy<Case> {
+    (1u8..=3)
+        .prop_flat_map(move |nkeys| {
+            let setup_op = match sys {
+                Sys::Container => op_strategy(sys, nkeys).prop_map(|o| Op::Put { k: o.key().unwrap_or(0) }).boxed(),
+                _ => (op_strategy(sys, nkeys), any::<bool>()).prop_map(|(o, z)| if z { Op::PutZero { k: o.key().unwrap_or(0) } } else { Op::Put { k: o.key().unwrap_or(0) } }).boxed(),
+            };
+            (
+                proptest::collection::vec(setup_op, 0..=2),
+                proptest::collection::vec(proptest::collection::vec(op_strategy(sys, nkeys), 1..=3), 2..=3),
+                schedule_strategy(24),
+                any::<bool>(),
+            )
+        })
+        .prop_map(move |(setup, tasks, schedule, subdirs)| Case { sys, cfg: Cfg { subdirs: subdirs && sys == Sys::Disk, ..Cfg::roomy() }, setup, tasks, schedule })
+        .boxed()
+}
+
+fn evict_case() -> BoxedStrategy<Case> {
+    // tiny capacities: most puts start an eviction
+    let op = (prop_oneof![5 => Just(2u8), 2 => Just(0u8), 1 => Just(1u8), 1 => Just(3u8), 1 => Just(4u8), 1 => Just(5u8)], 0u8..4).prop_map(|(o, k)| match o {
+        0 => Op::Get { k },
+        1 => Op::Has { k },
+        2 => Op::Put { k },
+        3 => Op::PutZero { k },
+        4 => Op::Remove { k },
+        _ => Op::Clear,
+    });
+    (
+        prop_oneof![Just(1usize), Just(2usize), Just(3usize)],
+        prop_oneof![Just(Pol::Lru), Just(Pol::Lfu), Just(Pol::Fifo), Just(Pol::Ttl)],
+        proptest::collection::vec((0u8..4).prop_map(|k| Op::Put { k }), 0..=3),
+        proptest::collection::vec(proptest::collection::vec(op, 1..=3), 2..=3),
+        schedule_strategy(40),
+    )
+        .prop_map(|(max_entries, policy, setup, tasks, schedule)| Case { sys: Sys::Memory, cfg: Cfg { max_entries, policy, subdirs: false }, setup, tasks, schedule })
+        .boxed()
+}
+
+// ---------------------------------------------------------------------------
+
+fn cache_alphabet(keys: &[u8]) -> Vec<Op> {
+    let mut v = Vec::new();
+    for &k in keys {
+        v.extend([Op::Get { k }, Op::Has { k }, Op::Put { k }, Op::PutZero { k }, Op::Remove { k }]);
+    }
+    v.push(Op::Clear);
+    v
+}
+
+fn container_alphabet(keys: &[u8]) -> Vec<Op> {
+    let mut v = Vec::new();
+    for &k in keys {
+        v.extend([Op::Get { k }, Op::Has { k }, Op::Put { k }, Op::Remove { k }]);
+    }
+    v
+}
+
+fn main() {
+    let mut ck = Check::from_args("C11", "exploration");
+    let tier = ck.tier;
+    ck.extra(
+        "rule",
+        "case = (system, program, schedule); programs = 2-3 tasks x 1-3 ops of {get, contains, put, put_with_ttl(ZERO), remove, clear} on one MemoryCache / DiskCache \
+         (values tagged per task+op, distinct lengths) and {write, read, remove, query} on one DynamicContainer; every sched_point (verif-hooks) is a choice point of the \
+         schedule; dfs-* sections enumerate every schedule with <= 3 pre-emptions of every program of the stated family, random-* draw programs and schedules; \
+         non-trivial = the run has >= 1 pre-emption and two operations of different tasks on the same key (or a clear) overlap in time; distinct by case hash"
+            .into(),
+    );
+    ck.assume("interleaving happens only at the sched_point sites of the verif-hooks feature (between accesses to shared state, never while a map/lock guard is held); races inside DashMap/parking_lot/std locks, inside one file-system call, and real multi-core memory ordering are outside the hook granularity");
+    ck.assume(format!(
+        "linearizability programs use max_entries = {} and no byte limit, far above the <= 4 keys of a program: no eviction is due; a run whose trace shows that the cache started an eviction anyway is judged with the 'may evict / latest or nothing' model of C10",
+        sys::ROOMY
+    ));
+    ck.assume("TTLs are Duration::ZERO (expired from the start) or the default 1 h / 24 h; no clock is read by the oracle; a baton hand-over without progress for 60 s is reported as infrastructure trouble (exit 2), never as a verdict");
+    ck.assume("an operation that returned an error may or may not have taken effect (both are tried by the linearizability search); a failed clear() makes the run's linearizability undecided (skipped)");
+
+    // replay of a case found by an exhaustive section (the proptest sections replay through Check::run)
+    if let Some((section, cj, path)) = ck.replay_request() {
+        if section.starts_with("dfs-") {
+            let case: Case = match serde_json::from_value(cj) {
+                Ok(c) => c,
+                Err(e) => {
+                    eprintln!("replay case does not deserialize: {e}");
+                    std::process::exit(2);
+                }
+            };
+            // judge without the known list: conclude_replay maps known keys itself
+            let v = check_case(&case, &Known::default());
+            let infra_msgs: Vec<String> = std::mem::take(&mut *INFRA.lock().unwrap());
+            if !infra_msgs.is_empty() {
+                for m in infra_msgs {
+                    eprintln!("INFRA: {m}");
+                }
+                std::process::exit(2);
+            }
+            ck.conclude_replay(&path, v.fail.map(|f| (f.key, f.msg)));
+        }
+    }
+
+    let k01: [u8; 2] = [0, 1];
+    let k0: [u8; 1] = [0];
+
+    // --- exhaustive -----------------------------------------------------------------
+    {
+        let setups: Vec<Vec<Op>> = tier.pick(vec![vec![], vec![Op::PutZero { k: 0 }]], vec![vec![], vec![Op::Put { k: 0 }], vec![Op::PutZero { k: 0 }], vec![Op::Put { k: 0 }, Op::PutZero { k: 1 }]]);
+        let progs = programs_2x2(Sys::Memory, &cache_alphabet(&k01), &setups);
+        let scope = format!(
+            "MemoryCache: all {} programs of 2 tasks x 2 ops over {{get, contains, put, put_with_ttl(ZERO), remove}} x {{key0, key1}} + clear (one per task/key symmetry class), setups {:?}; every schedule with <= {BOUND} pre-emptions at the sched_point sites",
+            progs.len(),
+            setups
+        );
+        run_dfs_section(&mut ck, "dfs-memory", scope, progs, 16);
+    }
+    {
+        let (alphabet, setups): (Vec<Op>, Vec<Vec<Op>>) = tier.pick(
+            (cache_alphabet(&k0), vec![vec![], vec![Op::PutZero { k: 0 }]]),
+            (cache_alphabet(&k01), vec![vec![], vec![Op::Put { k: 0 }], vec![Op::PutZero { k: 0 }]]),
+        );
+        let progs = programs_2x2(Sys::Disk, &alphabet, &setups);
+        let scope = format!(
+            "DiskCache (flat layout): all {} programs of 2 tasks x 2 ops over {:?} (one per symmetry class), setups {:?}; every schedule with <= {BOUND} pre-emptions at the sched_point sites",
+            progs.len(),
+            alphabet,
+            setups
+        );
+        run_dfs_section(&mut ck, "dfs-disk", scope, progs, 16);
+    }
+    {
+        let (alphabet, setups): (Vec<Op>, Vec<Vec<Op>>) = tier.pick((container_alphabet(&k0), vec![vec![], vec![Op::Put { k: 0 }]]), (container_alphabet(&k01), vec![vec![], vec![Op::Put { k: 0 }]]));
+        let progs = programs_2x2(Sys::Container, &alphabet, &setups);
+        let scope = format!(
+            "DynamicContainer: all {} programs of 2 tasks x 2 ops over {:?} (Put = write, Get = read, Has = query; one per symmetry class), setups {:?}; every schedule with <= {BOUND} pre-emptions at the sched_point sites",
+            progs.len(),
+            alphabet,
+            setups
+        );
+        run_dfs_section(&mut ck, "dfs-container", scope, progs, 16);
+    }
+
+    // --- random -----------------------------------------------------------------------
+    let known = ck.known().clone();
+    let kn = known.clone();
+    ck.run(Section::pbt("random-memory", tier.pick(20_000, 2_000_000), || random_case(Sys::Memory), move |c: &Case| check_case(c, &kn)).shards(16));
+    drain_infra(&mut ck);
+    let kn = known.clone();
+    ck.run(Section::pbt("random-disk", tier.pick(6_000, 600_000), || random_case(Sys::Disk), move |c: &Case| check_case(c, &kn)).shards(16));
+    drain_infra(&mut ck);
+    let kn = known.clone();
+    ck.run(Section::pbt("random-container", tier.pick(2_000, 200_000), || random_case(Sys::Container), move |c: &Case| check_case(c, &kn)).shards(16));
+    drain_infra(&mut ck);
+    let kn = known.clone();
+    ck.run(Section::pbt("evict-memory", tier.pick(10_000, 1_000_000), evict_case, move |c: &Case| check_case(c, &kn)).shards(16));
+    drain_infra(&mut ck);
+
+    ck.finish();
+}
